@@ -49,4 +49,9 @@ CHECKS = {
         technique="call-log monitor (canary commands right of the injected failure must not run) + failure-report monitor + position oracle accepting every correct (query text, offset) naming of the failing action or link argument; failure location from the reference interpreter",
         text="Thousands of seeded failing queries: 11 failure kinds x position 1-5 at top level and inside links to depth 3, followed by canaries (also inside later link arguments), with NoCache and MemoryCache cold/warm. Exploration.",
         note="Failure location trusted from the reference interpreter; two position/naming mechanisms are listed known findings."),
+    "C13": dict(
+        category=_EXPL, design_ref="DESIGN.md section 4, C13",
+        technique="reference-model monitor (CacheModel relation absent/data/meta-only/maybe) compared after every operation over a confusable key universe for every back-end and combinator; raw-file scanner for unique plaintext markers in XOR/Fernet cache directories; delta-debugged witnesses",
+        text="Seeded histories of store / store_metadata / remove / clean with all reads after each step, 19 confusable keys, values of every built-in type, 17 configurations. Exploration.",
+        note="Values restricted to what their state type represents losslessly; refused stores leave the key unspecified; metadata write after data may keep or drop the data."),
 }
